@@ -359,6 +359,38 @@ fn derive_copy_shape(def: &CopyDef, symbol_table: &mut BTreeMap<Rc<str>, Shape>)
     }
 }
 
+/// The return shape of a function can mention the function's own arguments
+/// as holes. Those names mean nothing where the function is called: left in
+/// place they are taken for whatever the caller binds under the same name.
+/// Each one is replaced with the shape of the argument the call passes.
+fn bind_arg_holes(shape: &Shape, actuals: &BTreeMap<Rc<str>, Shape>) -> Shape {
+    let bind_all = |shapes: &Vec<Shape>| -> Vec<Shape> {
+        shapes.iter().map(|s| bind_arg_holes(s, actuals)).collect()
+    };
+    match shape {
+        Shape::Hole(pi) => match actuals.get(&pi.val) {
+            Some(actual) => actual.clone(),
+            None => shape.clone(),
+        },
+        Shape::List(NarrowedShape {
+            pos,
+            types: NarrowingShape::Narrowed(types),
+        }) => Shape::List(NarrowedShape::new_with_pos(bind_all(types), pos.clone())),
+        Shape::Narrowed(NarrowedShape {
+            pos,
+            types: NarrowingShape::Narrowed(types),
+        }) => Shape::Narrowed(NarrowedShape::new_with_pos(bind_all(types), pos.clone())),
+        Shape::Tuple(flds) => Shape::Tuple(PositionedItem::new(
+            flds.val
+                .iter()
+                .map(|(name, s)| (name.clone(), bind_arg_holes(s, actuals)))
+                .collect(),
+            flds.pos.clone(),
+        )),
+        _ => shape.clone(),
+    }
+}
+
 fn derive_call_shape(def: &CallDef, symbol_table: &mut BTreeMap<Rc<str>, Shape>) -> Shape {
     let func_shape = def.funcref.derive_shape(symbol_table);
     match &func_shape {
@@ -376,18 +408,32 @@ fn derive_call_shape(def: &CallDef, symbol_table: &mut BTreeMap<Rc<str>, Shape>)
             }
             // Check each positional argument against its declared type.
             // arg_order preserves declaration order so we can zip with the positional arglist.
+            // An argument nothing is known about accepts anything.
+            let unknown = fdef
+                .arg_order
+                .iter()
+                .map(|name| {
+                    let any = Shape::Narrowed(NarrowedShape {
+                        pos: def.pos.clone(),
+                        types: NarrowingShape::Any,
+                    });
+                    (name.clone(), any)
+                })
+                .collect();
+            let mut actuals = BTreeMap::new();
             for (arg_name, arg_expr) in fdef.arg_order.iter().zip(def.arglist.iter()) {
                 let actual_shape = arg_expr.derive_shape(symbol_table);
                 if let Some(declared_shape) = fdef.args.get(arg_name) {
-                    if let Shape::TypeErr(pos, msg) =
-                        declared_shape.narrow(&actual_shape, symbol_table)
+                    if let Shape::TypeErr(pos, msg) = bind_arg_holes(declared_shape, &unknown)
+                        .narrow(&actual_shape, symbol_table)
                     {
                         return Shape::TypeErr(pos, msg);
                     }
                 }
+                actuals.insert(arg_name.clone(), actual_shape);
             }
             // Return the function's return type
-            fdef.ret.as_ref().clone()
+            bind_arg_holes(fdef.ret.as_ref(), &actuals)
         }
         Shape::Hole(_) => {
             // Unknown function, derive arg shapes but return Any
@@ -436,7 +482,13 @@ fn derive_call_shape(def: &CallDef, symbol_table: &mut BTreeMap<Rc<str>, Shape>)
                     let mut ret_shapes = Vec::new();
                     for fdef in func_types {
                         if fdef.args.len() == arg_shapes.len() {
-                            ret_shapes.push(fdef.ret.as_ref().clone());
+                            let actuals = fdef
+                                .arg_order
+                                .iter()
+                                .cloned()
+                                .zip(arg_shapes.iter().cloned())
+                                .collect();
+                            ret_shapes.push(bind_arg_holes(fdef.ret.as_ref(), &actuals));
                         }
                     }
                     if ret_shapes.is_empty() {
